@@ -57,10 +57,18 @@ pub fn check(sc: &Scenario, out: &RunOutput) -> OracleResult {
     let mut inorder_bytes: u64 = 0;
     let mut read_bytes: u64 = 0;
     let mut reopen_due: Option<T> = None;
+    // sends of the endpoint that a full socket refused (each is repeated a millisecond later):
+    // "at that instant" and "within 40 ms" are extended by the refusals that fall in between
+    let refused: Vec<T> = w.h.evs.iter().filter_map(|(ts, ev)| matches!(ev, crate::hist::Ev::SendFail { src, kind, .. } if *src == w.e && *kind == "pending").then_some(*ts)).collect();
+    let slack = |from: T, to: T| -> T { refused.iter().filter(|ts| **ts >= from && **ts <= to).count() as T * crate::hist::MS };
+    // a packet that arrives while an acknowledgement is being refused finds the endpoint in the
+    // middle of sending the previous one (which cannot cover it): what it triggers is judged
+    // like an ordinary delayed acknowledgement
+    let imm = |t: T| -> T { if refused.iter().any(|ts| *ts + crate::hist::MS >= t && *ts <= t) { t + ACK_DELAY + TOL } else { t } };
     for (t, _, x) in &evs {
         let t = *t;
         if let Some(td) = reopen_due {
-            if t > td {
+            if t > td + slack(td, t) {
                 if !task_over {
                     res.violate(P, "window-reopen-not-announced", td, format!("the last datagram sent advertised a zero window; at {} the application read everything that had been received ({} bytes), yet no datagram with a non-zero window left at that instant", crate::hist::fmt_t(td), read_bytes));
                 }
@@ -69,7 +77,7 @@ pub fn check(sc: &Scenario, out: &RunOutput) -> OracleResult {
         }
         // obligations that are overdue
         due.retain(|(dl, seq, why, td)| {
-            if t > *dl && !task_over {
+            if t > *dl + slack(*td, t) && !task_over {
                 res.violate(
                     P,
                     if *why == "delayed" { "ack-later-than-40ms" } else { "immediate-ack-missing" },
@@ -102,7 +110,7 @@ pub fn check(sc: &Scenario, out: &RunOutput) -> OracleResult {
                         let d_rel = seq_diff(p.seq, cum);
                         if d_rel <= 0 || delivered.contains_key(&p.seq) {
                             // duplicate -> immediate ACK (covering what is in order)
-                            due.push((t, cum, "duplicate", t));
+                            due.push((imm(t), cum, "duplicate", t));
                             triggers += 1;
                         } else if d_rel == 1 {
                             let had_gap = delivered.keys().any(|s| seq_diff(*s, cum) > 1);
@@ -115,15 +123,15 @@ pub fn check(sc: &Scenario, out: &RunOutput) -> OracleResult {
                             triggers += 1;
                             if had_gap {
                                 // fills (part of) a gap
-                                due.push((t, cum, "gap-fill", t));
+                                due.push((imm(t), cum, "gap-fill", t));
                             } else if unacked_bytes >= 2 * mss {
-                                due.push((t, cum, "two-segments", t));
+                                due.push((imm(t), cum, "two-segments", t));
                             } else {
                                 due.push((t + ACK_DELAY + TOL, p.seq, "delayed", t));
                             }
                         } else {
                             delivered.insert(p.seq, p.payload.len());
-                            due.push((t, cum, "out-of-order", t));
+                            due.push((imm(t), cum, "out-of-order", t));
                             triggers += 1;
                         }
                     }
@@ -133,7 +141,11 @@ pub fn check(sc: &Scenario, out: &RunOutput) -> OracleResult {
                         if !fin_accepted && p.seq == cum.wrapping_add(1) {
                             fin_accepted = true;
                             cum = p.seq;
-                            due.push((t, cum, "fin", t));
+                            due.push((imm(t), cum, "fin", t));
+                        } else if fin_accepted && p.seq == cum {
+                            // the peer repeats its FIN (our acknowledgement got lost): a
+                            // duplicate like any other, answered at once
+                            due.push((imm(t), cum, "duplicate-fin", t));
                         }
                     }
                     codec::ST_STATE => established = true,
@@ -182,6 +194,16 @@ pub fn check(sc: &Scenario, out: &RunOutput) -> OracleResult {
                 triggers = triggers.saturating_sub(1);
                 if seq_diff(p.ack, cum) >= 0 {
                     unacked_bytes = 0;
+                } else if seq_diff(cum, p.ack) < 4096 {
+                    // (an acknowledgement that went out late - refused by a full socket - may
+                    // not cover what arrived meanwhile: that is what is un-acknowledged now)
+                    let mut sum = 0usize;
+                    let mut q = p.ack.wrapping_add(1);
+                    while seq_diff(q, cum) <= 0 {
+                        sum += delivered.get(&q).copied().unwrap_or(0);
+                        q = q.wrapping_add(1);
+                    }
+                    unacked_bytes = unacked_bytes.min(sum);
                 }
                 last_emit_ack = Some(p.ack);
                 last_emit_wnd_zero = Some(p.wnd == 0);
